@@ -6,7 +6,7 @@
    a token is in first(x) iff some string derived from x starts with it, and the empty-word
    marker is in first(x) iff x derives the empty string. *)
 From Coq Require Import List Arith.
-From LV Require Import Sema FirstSpec FirstComplete FirstSound FirstClosed FirstCert PredictSpec FollowSpec FollowSound FollowCert.
+From LV Require Import Sema FirstSpec FirstComplete FirstSound FirstClosed FirstCert PredictSpec FollowSpec FollowSound FollowClosed FollowCert.
 
 Theorem C09_first_sets_exact :
   forall g fuel m,
@@ -32,8 +32,7 @@ Proof. exact first_sound. Qed.
 
 (* follow sets (tokens; the empty-word marker in follow sets is ignored, as the property says):
    for every grammar with unique node ids and every first-set map fi, if the transcription of
-   LL1Validator::calc_follow terminates with a map that satisfies the follow inclusions
-   ([fol_closed], evaluated on every grammar of the K2 correspondence), a token is in follow(y)
+   LL1Validator::calc_follow terminates, a token is in follow(y)
    iff the textbook rules [Fol] (end markers of the start rule and of parts; what can start the
    rest of a sequence; the follow of the enclosing construct when the rest is nullable; the first
    set of a loop body after itself; rule references pass their follow to the rule body) derive it. *)
@@ -41,9 +40,14 @@ Theorem C09_follow_sets_exact :
   forall g fi fuel fo lf,
   wf_ids_b g = true ->
   calc_follow g fi fuel = Some (fo, lf) ->
-  fol_closed g fi fo = true ->
   forall y a, In y (nodes_of g) -> (mem (T a) (get fo (rid_of y)) = true <-> Fol g fi y a).
-Proof. exact follow_exact. Qed.
+Proof. exact follow_exact_any. Qed.
+
+(* the map calc_follow returns always satisfies the follow inclusions, although the loop only watches
+   the follow sets of rule bodies *)
+Theorem C09_follow_sets_closed :
+  forall g fi, wf_ids g -> forall fuel fo lf, calc_follow g fi fuel = Some (fo, lf) -> fol_closed g fi fo = true.
+Proof. exact calc_follow_closed. Qed.
 
 (* predict is first, extended by follow when the node is nullable (the empty-word marker is dropped) *)
 Theorem C09_predict_is_first_extended_by_follow :
@@ -57,3 +61,4 @@ Print Assumptions C09_first_sets_closed.
 Print Assumptions C09_first_sets_sound.
 Print Assumptions C09_predict_is_first_extended_by_follow.
 Print Assumptions C09_follow_sets_exact.
+Print Assumptions C09_follow_sets_closed.
